@@ -41,7 +41,7 @@ func evalC08(f flCase, raw []byte) (vs []*Violation) {
 	}
 	add := func(rule, class, detail string) {
 		c := mkCase("C08", site, nil, line, nil)
-		c.Extra = map[string]any{"kind": f.Kind, "a": f.A, "b": f.B, "c": f.C, "term": f.Term, "viamsg": f.ViaMsg, "offs": f.Offs, "cut": f.Cut}
+		c.Extra = map[string]any{"kind": f.Kind, "a": bstr(f.A), "b": bstr(f.B), "c": bstr(f.C), "term": f.Term, "viamsg": f.ViaMsg, "offs": f.Offs, "cut": f.Cut}
 		vs = append(vs, &Violation{Property: "C08", Site: site, Rule: rule, Class: class, Detail: detail, Case: c})
 	}
 	var fl *sipsp.PFLine
@@ -195,6 +195,20 @@ func checkC08(r *Run) {
 			}
 		}
 	}
+	// every byte value that can be part of a token (0x21-0x7e, 0x80-0xff) inside the method, the URI and the version
+	for x := 0x21; x < 0x100; x++ {
+		if x == 0x7f {
+			continue
+		}
+		xs := string([]byte{byte(x)})
+		for _, t := range terms {
+			for _, via := range []bool{false, true} {
+				cases = append(cases, flCase{Kind: "request", A: "IN" + xs + "TE", B: "sip:a@b", C: "SIP/2.0", Term: t, ViaMsg: via},
+					flCase{Kind: "request", A: "OPTIONS", B: "sip:\xc3" + xs + "lice@b" + xs, C: "SIP/2.0", Term: t, ViaMsg: via},
+					flCase{Kind: "request", A: "BYE", B: "sip:a@b", C: "SIP/" + xs + "2.0" + xs, Term: t, ViaMsg: via})
+			}
+		}
+	}
 	reasons := []string{"", "OK", "Not Found Here", "a\tb ", "\x80\xff", "200 OK", " "}
 	rvers := []string{"SIP/2.0", "sip/2.0", "SiP/2.0"}
 	for code := 0; code < 1000; code++ {
@@ -208,6 +222,16 @@ func checkC08(r *Run) {
 					}
 				}
 			}
+		}
+	}
+	// every byte value except CR / LF inside the reason text
+	for x := 0; x < 0x100; x++ {
+		if x == '\r' || x == '\n' {
+			continue
+		}
+		xs := string([]byte{byte(x)})
+		for _, t := range terms {
+			cases = append(cases, flCase{Kind: "reply", A: "SIP/2.0", B: "404", C: "a" + xs + "b", Term: t}, flCase{Kind: "reply", A: "SIP/2.0", B: "180", C: xs, Term: t, ViaMsg: x%2 == 0})
 		}
 	}
 	near := map[string][]string{
@@ -305,7 +329,7 @@ func checkC08(r *Run) {
 func init() {
 	replayers["C08"] = func(prop string, c *Case) []*Violation {
 		ex := c.Extra
-		s := func(k string) string { v, _ := ex[k].(string); return v }
+		s := func(k string) string { return exBstr(ex, k) }
 		via, _ := ex["viamsg"].(bool)
 		f := flCase{Kind: s("kind"), A: s("a"), B: s("b"), C: s("c"), Term: s("term"), ViaMsg: via, Offs: exInt(ex, "offs"), Cut: exInt(ex, "cut")}
 		return evalC08(f, c.input())
